@@ -169,6 +169,44 @@ theorem get_root_undefined (h : Heap) (fuel i : Nat) (name : String) (s : Scope)
     get h (fuel + 1) i name = .err ("undefined symbol '" ++ name ++ "'") := by
   simp [EnvApi.get, hs, hv, hx, hp]
 
+theorem assocSet_lookup {β : Type} (name : String) (v : β) (l : List (String × β)) :
+    (assocSet name v l).lookup name = some v := by
+  induction l with
+  | nil => simp [assocSet]
+  | cons a rest ih =>
+    obtain ⟨n, x⟩ := a
+    by_cases hn : n = name
+    · subst hn
+      simp [assocSet, List.lookup]
+    · have h1 : (n == name) = false := by simp [hn]
+      have h2 : (name == n) = false := by simp [Ne.symm hn]
+      simp only [assocSet, h1, Bool.false_eq_true, if_false, List.lookup, h2, ih]
+
+/-- A child scope is linked to the scope it was created on - whether or not that scope holds anything at that
+moment - so a definition made in the parent AFTER the child was created is what the child finds: NewEnv on
+`p`, then Define(`p`, name, v), then Get(child, name) yields `v`. -/
+theorem child_sees_later_definitions_of_its_creator (h : Heap) (p : Nat) (name : String) (v : V) (fuel : Nat)
+    (hp : p < h.size) (hd : hasDot name = false) :
+    (newEnv h p).1 = .scope h.size ∧
+    get (define (newEnv h p).2 p name v).2 (fuel + 2) h.size name = .val v := by
+  have hne : h.size ≠ p := by omega
+  have h1 : (newEnv h p).2 = h.push ⟨some p, [], [], false⟩ := by simp [newEnv, hp]
+  refine ⟨by simp [newEnv, hp], ?_⟩
+  rw [h1]
+  have hp1 : p < (h.push (⟨some p, [], [], false⟩ : Scope)).size := by simp; omega
+  simp only [define, hd, Bool.false_eq_true, if_false, hp1, if_true, modScope, dif_pos]
+  have hc : ((h.push (⟨some p, [], [], false⟩ : Scope)).set p
+      { (h.push (⟨some p, [], [], false⟩ : Scope))[p] with values := assocSet name v (h.push (⟨some p, [], [], false⟩ : Scope))[p].values })[h.size]?
+      = some ⟨some p, [], [], false⟩ := by
+    rw [Array.getElem?_set_ne hp1 (Ne.symm hne)]
+    simp
+  have hpar : ((h.push (⟨some p, [], [], false⟩ : Scope)).set p
+      { (h.push (⟨some p, [], [], false⟩ : Scope))[p] with values := assocSet name v (h.push (⟨some p, [], [], false⟩ : Scope))[p].values })[p]?
+      = some { (h.push (⟨some p, [], [], false⟩ : Scope))[p] with values := assocSet name v (h.push (⟨some p, [], [], false⟩ : Scope))[p].values } := by
+    simp [hp1]
+  rw [show fuel + 2 = (fuel + 1) + 1 from rfl, get_parent_last _ (fuel + 1) h.size p name _ hc (by simp [List.lookup]) (by simp) rfl]
+  exact get_own_first _ fuel p name _ v hpar (assocSet_lookup name v _)
+
 /-- built-in type names are consulted last, at the root only -/
 theorem type_builtin_last (h : Heap) (fuel i : Nat) (name t : String) (s : Scope)
     (hs : h[i]? = some s) (hv : s.types.lookup name = none)
@@ -179,6 +217,29 @@ theorem type_builtin_last (h : Heap) (fuel i : Nat) (name t : String) (s : Scope
 theorem type_own_shadows_builtin (h : Heap) (fuel i : Nat) (name t : String) (s : Scope)
     (hs : h[i]? = some s) (hv : s.types.lookup name = some t) : typeOf h (fuel + 1) i name = .ty t := by
   simp [typeOf, hs, hv]
+
+/-- Type lookups are never remembered: whatever `Type(c, name)` answered before, after `DefineType(p, name, t)`
+on the scope `p` that a type-less, lookup-less child `c` hangs under, `Type(c, name)` is `t` - a re-definition
+in an enclosing scope (also one that shadows a built-in name) is what inner scopes see from then on. -/
+theorem type_redefinition_in_parent_is_seen (h : Heap) (c p : Nat) (name t : String) (fuel : Nat) (sc : Scope)
+    (hc : h[c]? = some sc) (hcp : sc.parent = some p) (hne : c ≠ p) (hp : p < h.size)
+    (hown : sc.types.lookup name = none) (hext : sc.ext = false) (hd : hasDot name = false) :
+    typeOf (defineType h p name t).2 (fuel + 2) c name = .ty t := by
+  simp only [defineType, hd, Bool.false_eq_true, if_false, hp, if_true, modScope, dif_pos]
+  have hc' : (h.set p { h[p] with types := assocSet name t h[p].types })[c]? = some sc := by
+    rw [Array.getElem?_set_ne hp (Ne.symm hne)]; exact hc
+  have hp' : (h.set p { h[p] with types := assocSet name t h[p].types })[p]?
+      = some { h[p] with types := assocSet name t h[p].types } := by simp
+  have step : typeOf (h.set p { h[p] with types := assocSet name t h[p].types }) (fuel + 1 + 1) c name
+      = typeOf (h.set p { h[p] with types := assocSet name t h[p].types }) (fuel + 1) p name := by
+    simp [typeOf, hc', hown, hext, hcp]
+  rw [show fuel + 2 = fuel + 1 + 1 from rfl, step]
+  exact type_own_shadows_builtin _ fuel p name t _ hp' (assocSet_lookup name t _)
+
+example : typeOf (defineType #[⟨none, [], [("T", "string")], false⟩, ⟨some 0, [], [], false⟩] 0 "T" "int8").2 3 1 "T" = .ty "int8" := by
+  decide
+example : get (define (newEnv #[⟨none, [], [], false⟩, ⟨some 0, [], [], false⟩] 1).2 1 "x" (.int 7)).2 3 2 "x" = .val (.int 7) := by
+  decide
 
 /-! ### Copy is an independent snapshot -/
 
